@@ -262,7 +262,9 @@ theorem register_KD (g : Grammar) (s : St) (el : Nat) (n : Node) (parent : Optio
     (pn : PNode) (hk : KInv s) (hd : DInv s) :
     KInv (register g s el n parent index pn).2 ∧ DInv (register g s el n parent index pn).2 ∧
       Fr s.heap.length s (register g s el n parent index pn).2 ∧
-      H0 (register g s el n parent index pn).2 s.heap.length := by
+      H0 (register g s el n parent index pn).2 s.heap.length ∧
+      (∀ st, aget (register g s el n parent index pn).2.lookup el = some st →
+        st.converted = s.heap.length) := by
   let es : EState := { converted := s.heap.length, parent := parent, parentIndex := index, number := s.index + 1 }
   have hkA : KInv (s.alloc pn).2 := KInv_heap (s := s) rfl (by simp [St.alloc]) (Mono_alloc s pn) hk
   have hk2 : KInv (setL (s.alloc pn).2 (s.index + 1) el es) :=
@@ -280,18 +282,27 @@ theorem register_KD (g : Grammar) (s : St) (el : Nat) (n : Node) (parent : Optio
     · simp only [setL, aget_aset_ne _ _ _ _ hu'] at hu
       have := hk.bound u st hu
       omega
+  have h22 : ∀ st, aget (setL (s.alloc pn).2 (s.index + 1) el es).lookup el = some st →
+      st.converted = s.heap.length := by
+    intro st hst
+    simp only [setL, aget_aset_same, Option.some.injEq] at hst
+    subst hst; rfl
   unfold register
   simp only
   split
   · obtain ⟨a, b, c⟩ := mark_KD g (setL (s.alloc pn).2 (s.index + 1) el es) el n.custom hk2 hd2
-    refine ⟨a, b, hf2.trans (c _), ?_⟩
-    intro u st hu hc
-    obtain ⟨st0, e1, e2, e3⟩ := c (s.heap.length + 1) u st hu (by omega)
-    have := h02 u st0 e1 (by omega)
-    cases hcc : st.complete with
-    | false => rfl
-    | true => rw [e3 hcc] at this; exact absurd this (by simp)
-  · exact ⟨hk2, hd2, hf2, h02⟩
+    refine ⟨a, b, hf2.trans (c _), ?_, ?_⟩
+    · intro u st hu hc
+      obtain ⟨st0, e1, e2, e3⟩ := c (s.heap.length + 1) u st hu (by omega)
+      have := h02 u st0 e1 (by omega)
+      cases hcc : st.complete with
+      | false => rfl
+      | true => rw [e3 hcc] at this; exact absurd this (by simp)
+    · intro st hst
+      obtain ⟨st0, e1, e2, _⟩ := c (st.converted + 1) el st hst (by omega)
+      have := h22 st0 e1
+      omega
+  · exact ⟨hk2, hd2, hf2, h02, h22⟩
 
 theorem setComplete_KD (sP : St) (el m : Nat) (hk1 : KInv sP) (hd1 : DInv sP)
     (hfill1 : ∀ st, aget sP.lookup el = some st → (sP.node st.converted).kw.filled = true)
@@ -362,5 +373,142 @@ theorem annotate_KD (o : Opts) (n : Node) (r : Option Nat) (s : St) (hk : KInv s
   · split
     · exact ⟨KInv_HS hk (HS_alloc s _ rfl) rfl, hd, Fr_lookup_eq rfl⟩
     · exact ⟨hk, hd, Fr.refl m s⟩
+
+/-- **the link between the lookup table and the heap is kept by every returning call**: complete
+    entries point to filled partials, every diagram content is a reference -/
+theorem conv_KD (g : Grammar) (o : Opts) (hd : drawsAll g o = true) :
+    ∀ fuel el p i h s r s', el < g.length → conv g o fuel el p i h s = some (r, s') →
+      KInv s → DInv s → KInv s' ∧ DInv s' ∧ Fr s.heap.length s s' := by
+  intro fuel
+  induction fuel with
+  | zero => intro el p i h s r s' _ hc; simp [conv] at hc
+  | succ f ih =>
+    intro el p i h s r s' hel hc hK hD
+    unfold conv at hc
+    have hg : g[el]? = some g[el] := List.getElem?_eq_getElem hel
+    generalize g[el] = n at hg
+    have hn := drawsAll_node hd hg
+    simp only [hg] at hc
+    cases hb : convBody g o (conv g o f) el n p i h s with
+    | none => simp [hb] at hc
+    | some rs =>
+      obtain ⟨r1, s1⟩ := rs
+      simp only [hb, Option.some.injEq] at hc
+      suffices hh : KInv s1 ∧ DInv s1 ∧ Fr s.heap.length s s1 by
+        obtain ⟨a1, a2, a3⟩ := annotate_KD o n r1 s1 hh.1 hh.2.1 s.heap.length
+        rw [hc] at a1 a2 a3
+        exact ⟨a1, a2, hh.2.2.trans a3⟩
+      have hrecKD : RecKD g (conv g o f) := fun c p i h s r s' hcl hcv =>
+        ⟨(conv_HS g o hd f c p i h s r s' hcl hcv).1, fun k d => ih c p i h s r s' hcl hcv k d⟩
+      unfold convBody at hb
+      cases hp : pre g o el n p i h s with
+      | pass c h' =>
+        simp only [hp] at hb
+        have hc' : c < g.length := by
+          unfold pre at hp
+          split at hp
+          · rename_i hpass
+            simp only [Pre.pass.injEq] at hp
+            have hk : n.kids ≠ [] := by
+              intro hk
+              simp [isPass, hk] at hpass
+            obtain ⟨hc1, _⟩ := hp
+            rw [← hc1]
+            cases hkk : n.kids with
+            | nil => exact absurd hkk hk
+            | cons a as =>
+              exact drawOK_kids hn a (by rw [hkk]; exact List.mem_cons_self ..)
+          · split at hp
+            · exact absurd hp (by simp)
+            · exact absurd hp (by simp)
+            · unfold preFresh at hp
+              split at hp
+              · exact absurd hp (by simp)
+              · split at hp <;> exact absurd hp (by simp)
+        exact ih _ _ _ _ _ _ _ hc' hb hK hD
+      | ret r0 s0 =>
+        simp only [hp, Option.some.injEq, Prod.mk.injEq] at hb
+        obtain ⟨rfl, rfl⟩ := hb
+        unfold pre at hp
+        split at hp
+        · exact absurd hp (by simp)
+        · split at hp
+          · simp only [Pre.ret.injEq] at hp
+            obtain ⟨rfl, rfl⟩ := hp
+            obtain ⟨a, b, c⟩ := mark_KD g s el h hK hD
+            exact ⟨KInv_HS a (HS_newNT _ _) rfl, b, (c _).trans (Fr_lookup_eq rfl)⟩
+          · simp only [Pre.ret.injEq] at hp
+            obtain ⟨rfl, rfl⟩ := hp
+            exact ⟨KInv_HS hK (HS_newNT _ _) rfl, hD, Fr_lookup_eq rfl⟩
+          · unfold preFresh at hp
+            rw [drawOK_shown hn] at hp
+            obtain ⟨pn, hpn, _⟩ := drawOK_dispatch hn (nameOf n h)
+            simp only [hpn, Bool.false_eq_true, if_false] at hp
+            exact absurd hp (by simp)
+      | loop ret s0 =>
+        simp only [hp] at hb
+        have hreg : ∃ k0, ret = s.heap.length ∧ LS s s0 s.heap.length ∧ RS s0 s.heap.length 0 k0 ∧
+            (k0 || !n.kids.isEmpty) = true ∧
+            (KInv s0 ∧ DInv s0 ∧ Fr s.heap.length s s0 ∧ H0 s0 s.heap.length ∧
+              (∀ st, aget s0.lookup el = some st → st.converted = s.heap.length)) := by
+          unfold pre at hp
+          split at hp
+          · exact absurd hp (by simp)
+          · split at hp
+            · exact absurd hp (by simp)
+            · exact absurd hp (by simp)
+            · unfold preFresh at hp
+              rw [drawOK_shown hn] at hp
+              obtain ⟨pn, hpn, hshape⟩ := drawOK_dispatch hn (nameOf n h)
+              simp only [hpn, Bool.false_eq_true, if_false, Pre.loop.injEq] at hp
+              obtain ⟨rfl, rfl⟩ := hp
+              have hkd := register_KD g s el n p i pn hK hD
+              rcases hshape with h1 | ⟨v, h1, hk⟩ | h1
+              · obtain ⟨e1, e2, e3⟩ := register_LS g s el n p i pn (Or.inl h1) true
+                  (fun v hv => by rw [h1] at hv; exact absurd hv (by simp))
+                exact ⟨true, e1, e2, e3, rfl, hkd⟩
+              · obtain ⟨e1, e2, e3⟩ := register_LS g s el n p i pn (Or.inr (Or.inl ⟨v, h1⟩)) false
+                  (fun _ _ => rfl)
+                exact ⟨false, e1, e2, e3, by simp [hk], hkd⟩
+              · obtain ⟨e1, e2, e3⟩ := register_LS g s el n p i pn (Or.inr (Or.inr h1)) true
+                  (fun v hv => by rw [h1] at hv; exact absurd hv (by simp))
+                exact ⟨true, e1, e2, e3, rfl, hkd⟩
+        obtain ⟨k0, rfl, hL0, hR0, hk0, hK0, hD0, hF0, hH0, hC0⟩ := hreg
+        cases hl : loopKids (conv g o f) s.heap.length n.kids 0 s0 with
+        | none => simp [hl] at hb
+        | some s2 =>
+          simp only [hl, Option.some.injEq] at hb
+          obtain ⟨hL2, i2, hR2⟩ := loopKids_spec g (conv g o f) s s.heap.length
+            (fun c p i h s r s' hc hcv => conv_HS g o hd f c p i h s r s' hc hcv) n.kids 0 s0 k0 s2
+            (drawOK_kids hn) hl hL0 hR0
+          rw [hk0] at hR2
+          have hnew : NewFilled s.heap.length s2 := by
+            intro j b hj hb'
+            by_cases hjr : j = s.heap.length
+            · subst hjr
+              obtain ⟨a, ha, hka⟩ := hR2
+              rw [hb'] at ha
+              simp only [Option.some.injEq] at ha
+              subst ha
+              cases hkw : b.kw with
+              | leaf => rfl
+              | item v => rw [hkw] at hka; exact hka rfl
+              | items l => rw [hkw] at hka; exact hka.2
+            · exact hL2.others j b hj hjr hb'
+          have hlt0 : s.heap.length < s0.heap.length := by
+            obtain ⟨a, ha, _⟩ := hR0
+            exact (List.getElem?_eq_some_iff.mp ha).1
+          have hLK := loopKids_KD g (conv g o f) s0 s.heap.length hrecKD hH0 n.kids 0 s0 s2 (drawOK_kids hn) hl
+            ⟨hK0, hD0, Fr.refl _ _, hlt0⟩
+          have hL2' : ∀ st, aget s2.lookup el = some st → s.heap.length ≤ st.converted := by
+            intro st hst
+            by_cases hlt : st.converted < s.heap.length
+            · obtain ⟨st0, e1, e2, _⟩ := hLK.fr el st hst (by omega)
+              have := hC0 st0 e1
+              omega
+            · omega
+          obtain ⟨q1, q2, q3⟩ := post_KD el n h s.heap.length s2 s.heap.length hLK.k hLK.d hnew hL2'
+          rw [hb] at q1 q2 q3
+          exact ⟨q1, q2, hF0.trans ((hLK.fr.weaken (by omega)).trans q3)⟩
 
 end PP.Diagram
